@@ -41,7 +41,7 @@ func (s upStep) String() string {
 		return fmt.Sprintf("drop#%d", s.Cand)
 	case "heldProbeBurst":
 		return fmt.Sprintf("heldProbeBurst(%s,probe+%s+upgrade)", s.Tr, s.Pkt)
-	case "conformant", "probeEarly", "conformantSendAtTick", "conformantSecondDuringSwitch", "eagerUpgradeInsideFlush":
+	case "conformant", "probeEarly", "conformantSendAtTick", "conformantSecondDuringSwitch", "eagerUpgradeInsideFlush", "conformantSlowUpgradeListener":
 		return fmt.Sprintf("%s(%s,repoll=%d)", s.Kind, s.Tr, s.N)
 	case "conformantLatePoll":
 		return fmt.Sprintf("conformantLatePoll(%s,+%v,repoll=%d)", s.Tr, s.D, s.N)
@@ -71,7 +71,7 @@ func genC08(rt *rapid.T, gates bool, knownProbe bool, col *Collector) upCase {
 		l := fmt.Sprintf("s%d", i)
 		kinds := []string{"open", "open", "open", "send", "clientMsg", "poll", "advance"}
 		if rapid.IntRange(0, 7).Draw(rt, l+".conf") == 0 {
-			kinds = append(kinds, "conformant", "conformantLatePoll", "conformantSendAtTick", "conformantSecondDuringSwitch", "eagerUpgradeInsideFlush")
+			kinds = append(kinds, "conformant", "conformantLatePoll", "conformantSendAtTick", "conformantSecondDuringSwitch", "eagerUpgradeInsideFlush", "conformantSlowUpgradeListener")
 		}
 		if gates {
 			kinds = append(kinds, "heldProbeBurst")
@@ -114,7 +114,7 @@ func genC08(rt *rapid.T, gates bool, knownProbe bool, col *Collector) upCase {
 			st.Tr = rapid.SampledFrom(trs).Draw(rt, l+".tr")
 			st.Pkt = rapid.SampledFrom([]string{"pingOther", "pong", "message", "noop", "garbage"}).Draw(rt, l+".burst")
 			ncand++
-		case "conformant", "probeEarly", "conformantLatePoll", "conformantSendAtTick", "conformantSecondDuringSwitch", "eagerUpgradeInsideFlush":
+		case "conformant", "probeEarly", "conformantLatePoll", "conformantSendAtTick", "conformantSecondDuringSwitch", "eagerUpgradeInsideFlush", "conformantSlowUpgradeListener":
 			st.Tr = rapid.SampledFrom(trs).Draw(rt, l+".tr")
 			st.D = time.Duration(rapid.SampledFrom([]int{0, 50, 100, 150, 250, 1000}).Draw(rt, l+".late")) * time.Millisecond
 			st.N = rapid.SampledFrom([]int{0, 0, 1, 2}).Draw(rt, l+".repoll")
@@ -396,6 +396,9 @@ func runC08(c upCase) (fail string, stats map[string]bool) {
 	// armed by conformantSecondDuringSwitch: while an application 'upgrade' listener is still running (the switch
 	// is in progress on the candidate's reader goroutine) another candidate for the same session connects and probes
 	secondDuringSwitch := false
+	// armed by conformantSlowUpgradeListener: the upgrade packet arrives shortly before the attempt's timeout, and
+	// an application 'upgrade' listener is still busy when that instant passes
+	slowUpgradeListener := false
 	var intruder *upCand
 	// armed by eagerUpgradeInsideFlush: the application's flush listener is still running (the session's flush has
 	// tested the transport and not yet handed the batch over) when the candidate's upgrade packet switches transports
@@ -590,8 +593,24 @@ func runC08(c upCase) (fail string, stats map[string]bool) {
 				intruder = c2
 			})
 		}
+		slowListenerArmed := false
+		if slowUpgradeListener {
+			slowUpgradeListener = false
+			if left := cand.openedAt + upTimeout - w.now() - 50*time.Millisecond; left > 0 && len(uw.sr.Closes) == 0 {
+				time.Sleep(left)
+				Settle()
+				uw.sr.Sock.Once("upgrade", func(...any) { time.Sleep(100 * time.Millisecond) })
+				stats["upgrade-listener-busy-across-the-attempt's-timeout"] = true
+				slowListenerArmed = true
+			}
+		}
 		cand.send(ctl(tUpgrade))
 		Settle()
+		if slowListenerArmed {
+			// the listener takes its time; the attempt's timeout instant passes meanwhile
+			time.Sleep(150 * time.Millisecond)
+			Settle()
+		}
 		if intruder != nil {
 			stats["second-candidate-during-the-switch"] = true
 			uw.cands = append(uw.cands, intruder)
@@ -645,6 +664,12 @@ func runC08(c upCase) (fail string, stats map[string]bool) {
 				return what + ": " + f, stats
 			}
 			eagerInFlush = false
+		case "conformantSlowUpgradeListener":
+			slowUpgradeListener = true
+			if f := conformant(st.Tr, false); f != "" {
+				return what + ": " + f, stats
+			}
+			slowUpgradeListener = false
 		case "conformantSendAtTick":
 			rePolls, sendAtTick = st.N, true
 			if f := conformant(st.Tr, false); f != "" {
@@ -945,7 +970,7 @@ func TestC08Upgrade(t *testing.T) {
 	if !knownProbe {
 		req = append(req, "probe-before-listeners")
 	}
-	req = append(req, "burst-while-probe-pong-is-being-written", "second-candidate-during-the-switch", "perMessageDeflate-configured", "upgrade-packet-while-a-flush-is-in-progress")
+	req = append(req, "burst-while-probe-pong-is-being-written", "second-candidate-during-the-switch", "perMessageDeflate-configured", "upgrade-packet-while-a-flush-is-in-progress", "upgrade-listener-busy-across-the-attempt's-timeout")
 	col.RequireClasses(t, req...)
 }
 
